@@ -10,6 +10,7 @@ from pb_bss.distribution.mixture_model_utils import (
 )
 from pb_bss.distribution.utils import _ProbabilisticModel
 from pb_bss.permutation_alignment import _PermutationAlignment
+from pb_bss import _verif
 
 from .complex_watson import (
     ComplexWatson,
@@ -178,6 +179,11 @@ class CWMMTrainer:
                 saliency=saliency,
                 weight_constant_axis=weight_constant_axis,
             )
+            if _verif.ENABLED:
+                _verif.report(
+                    trainer=self, iteration=iteration, model=model,
+                    affiliation=affiliation, quadratic_form=None,
+                )
 
         return model
 
